@@ -10,14 +10,17 @@ def _noncomposite(w):
 
 @predicate
 def c20_join_noncomposite_rows_placed_by_label(w):
-    """composite_index=False, one-to-one matches, flat indexes of one kind: the result is laid
+    """composite_index=False, one-to-one matches, indexes of one kind (both flat, or both hierarchical when the key is
+    wider than the labels): the result is laid
     out on one side's labels and the other side is aligned *by label*; wrong exactly when a
     matched pair does not share its label or an unmatched row's label exists on the other side."""
     if w['what'] != 'join_rows_mismatch' or not _noncomposite(w):
         return False
     k = w['klass']
-    if k.get('hierarchical_index') or k.get('union_coerces_labels'):
+    if k.get('union_coerces_labels'):
         return False
+    if k.get('hierarchical_index') and not (k.get('hierarchical_sides') == 2 and not k.get('hierarchy_has_datetime_level')):
+        return False  # one hierarchical side / datetime levels: c20_join_noncomposite_hierarchical_index
     how = k.get('how')
     differ = not k.get('matched_pairs_share_labels')
     ul, ur = k.get('unmatched_left_label_in_right'), k.get('unmatched_right_label_in_left')
